@@ -61,10 +61,13 @@ def wholeNextCore (d : D) (sid : Nat) (x : DSub) (kind : Nat) (follow : Option N
   | _ => none
 
 /-- a resumed listener coroutine goes straight into `next()` of subscriber `b` (inside the wake-up pass) -/
-def followNext (d : D) (b : Nat) : D × (Nat × String) :=
+def followNext (d : D) (b : Nat) (snap : List Nat := []) : D × (Nat × String) :=
   match d.live b with
   | none => (d, (b, s!"c{b}=bad"))
   | some x =>
+    -- canonical rule shared with the harness: a subscriber that was itself waiting when the queue-wide operation
+    -- began is not taken for a follow-up (keeps the trace independent of the order of resumptions within one pass)
+    if snap.contains b then (d, (b, s!"c{b}=bad")) else
     match wholeNextCore d b x 2 none with
     | none => (d, (b, s!"c{b}=bad"))
     | some (d1, txt, _) => (d1, (b, s!"c{b}={txt}"))
@@ -72,7 +75,7 @@ def followNext (d : D) (b : Nat) : D × (Nat × String) :=
 /-- after a step that released subscribers (in `_regs` order, as the wake-up loop runs): hand-driven ones just see their
 awaiter called; a coroutine goes on to `check_next()` at once and then into its follow-up `next()`; blocked threads
 run concurrently and are joined after the operation (second pass) -/
-def wakeEvents (d : D) (woken : List Nat) : D × List (Nat × String) :=
+def wakeEvents (d : D) (woken : List Nat) (snap : List Nat := []) : D × List (Nat × String) :=
   let pass1 := woken.foldl (fun (acc : D × List (Nat × String)) sid =>
     let (d, evs) := acc
     match d.live sid with
@@ -88,7 +91,7 @@ def wakeEvents (d : D) (woken : List Nat) : D × List (Nat × String) :=
         let evs1 := evs ++ [(sid, s!"c{sid}={txt}@{(regOf s1 x.h).pos}")]
         match x.follow with
         | none => (d1, evs1)
-        | some b => let (d2, e) := followNext d1 b; (d2, evs1 ++ [e])
+        | some b => let (d2, e) := followNext d1 b snap; (d2, evs1 ++ [e])
       else (d, evs)) (d, [])
   woken.foldl (fun (acc : D × List (Nat × String)) sid =>
     let (d, evs) := acc
@@ -112,7 +115,8 @@ def globalOp (d : D) (op : Op) (head : State → String) : D × String :=
   let woken := match r with
     | Res.woken l => l
     | _ => []
-  let (d2, evs) := wakeEvents { d with s := s1 } woken
+  let snap := d.subs.filterMap (fun (p : Nat × DSub) => if !p.2.gone && (regOf d.s p.2.h).awt then some p.1 else none)
+  let (d2, evs) := wakeEvents { d with s := s1 } woken snap
   -- the wake-up pass is over: second lock region of push_lk
   let d3 := if s1.inWake > d.s.inWake then { d2 with s := (step d2.s Op.relock).1 } else d2
   (d3, evLine (head d3.s) evs)
